@@ -62,6 +62,20 @@ type Node struct {
 	DBlockReqs map[uint32]int
 }
 
+// SetOnRequest replaces the request hook (safe against concurrent requests).
+func (n *Node) SetOnRequest(f func(r Req) FaultKind) {
+	n.mu.Lock()
+	n.OnRequest = f
+	n.mu.Unlock()
+}
+
+// SetTipFn replaces the tip function (safe against concurrent requests).
+func (n *Node) SetTipFn(f func() uint32) {
+	n.mu.Lock()
+	n.TipFn = f
+	n.mu.Unlock()
+}
+
 func NewNode(c *Chain) *Node {
 	return &Node{Chain: c, DBlockReqs: map[uint32]int{}}
 }
@@ -200,8 +214,11 @@ func hx(b []byte, trunc bool) string {
 }
 
 func (n *Node) tip() uint32 {
-	if n.TipFn != nil {
-		return n.TipFn()
+	n.mu.Lock()
+	f := n.TipFn
+	n.mu.Unlock()
+	if f != nil {
+		return f()
 	}
 	return n.Chain.Tip()
 }
